@@ -508,7 +508,8 @@ private:
         const ser_context&,
         std::error_code& ec) final
     {
-        static constexpr uint64_t max_value_div_1000 = (std::numeric_limits<uint64_t>::max)() / 1000;
+        // a datetime is a signed 64-bit count of milliseconds
+        static constexpr uint64_t max_value_div_1000 = static_cast<uint64_t>((std::numeric_limits<int64_t>::max)()) / 1000;
         if (stack_.empty())
         {
             ec = bson_errc::expected_bson_document;
